@@ -22,6 +22,40 @@ SHARDS = {"quick": 8, "thorough": 16}
 BUDGET = {"quick": 25.0, "thorough": 420.0}
 REQUIRE = {
     "quick": {
+        "eval:mouse1_on_unfocused_listbox": 30,
+        "mouse_event:mouse press": 500,
+        "mouse_event:shift mouse press": 8,
+        "mouse_event:meta mouse press": 8,
+        "mouse_event:shift meta mouse press": 8,
+        "mouse_event:ctrl mouse press": 8,
+        "mouse_event:shift ctrl mouse press": 8,
+        "mouse_event:meta ctrl mouse press": 8,
+        "mouse_event:shift meta ctrl mouse press": 8,
+        "mouse_event:mouse release": 60,
+        "mouse_event:shift mouse release": 8,
+        "mouse_event:meta mouse release": 8,
+        "mouse_event:shift meta mouse release": 8,
+        "mouse_event:ctrl mouse release": 8,
+        "mouse_event:shift ctrl mouse release": 8,
+        "mouse_event:meta ctrl mouse release": 8,
+        "mouse_event:shift meta ctrl mouse release": 8,
+        "mouse_event:mouse drag": 60,
+        "mouse_event:shift mouse drag": 8,
+        "mouse_event:meta mouse drag": 8,
+        "mouse_event:shift meta mouse drag": 8,
+        "mouse_event:ctrl mouse drag": 8,
+        "mouse_event:shift ctrl mouse drag": 8,
+        "mouse_event:meta ctrl mouse drag": 8,
+        "mouse_event:shift meta ctrl mouse drag": 8,
+        "eval:mouse1_makes_focus:mouse press": 150,
+        "eval:mouse1_makes_focus:shift mouse press": 15,
+        "eval:mouse1_makes_focus:meta mouse press": 15,
+        "eval:mouse1_makes_focus:shift meta mouse press": 15,
+        "eval:mouse1_makes_focus:ctrl mouse press": 15,
+        "eval:mouse1_makes_focus:shift ctrl mouse press": 15,
+        "eval:mouse1_makes_focus:meta ctrl mouse press": 15,
+        "eval:mouse1_makes_focus:shift meta ctrl mouse press": 15,
+        "eval:non_press_keeps_focus": 200,
         "cover:page_key_on_tall_unselectable_focus": 150,
         "cover:list_with_repeated_widget_object": 1500,
         "cover:repeated_widget_object_visible_twice": 600,
@@ -66,6 +100,40 @@ REQUIRE = {
         "reach:widget.listbox.ListBox._set_focus_valign_complete": 1000
     },
     "thorough": {
+        "eval:mouse1_on_unfocused_listbox": 300,
+        "mouse_event:mouse press": 5000,
+        "mouse_event:shift mouse press": 80,
+        "mouse_event:meta mouse press": 80,
+        "mouse_event:shift meta mouse press": 80,
+        "mouse_event:ctrl mouse press": 80,
+        "mouse_event:shift ctrl mouse press": 80,
+        "mouse_event:meta ctrl mouse press": 80,
+        "mouse_event:shift meta ctrl mouse press": 80,
+        "mouse_event:mouse release": 600,
+        "mouse_event:shift mouse release": 80,
+        "mouse_event:meta mouse release": 80,
+        "mouse_event:shift meta mouse release": 80,
+        "mouse_event:ctrl mouse release": 80,
+        "mouse_event:shift ctrl mouse release": 80,
+        "mouse_event:meta ctrl mouse release": 80,
+        "mouse_event:shift meta ctrl mouse release": 80,
+        "mouse_event:mouse drag": 600,
+        "mouse_event:shift mouse drag": 80,
+        "mouse_event:meta mouse drag": 80,
+        "mouse_event:shift meta mouse drag": 80,
+        "mouse_event:ctrl mouse drag": 80,
+        "mouse_event:shift ctrl mouse drag": 80,
+        "mouse_event:meta ctrl mouse drag": 80,
+        "mouse_event:shift meta ctrl mouse drag": 80,
+        "eval:mouse1_makes_focus:mouse press": 1500,
+        "eval:mouse1_makes_focus:shift mouse press": 150,
+        "eval:mouse1_makes_focus:meta mouse press": 150,
+        "eval:mouse1_makes_focus:shift meta mouse press": 150,
+        "eval:mouse1_makes_focus:ctrl mouse press": 150,
+        "eval:mouse1_makes_focus:shift ctrl mouse press": 150,
+        "eval:mouse1_makes_focus:meta ctrl mouse press": 150,
+        "eval:mouse1_makes_focus:shift meta ctrl mouse press": 150,
+        "eval:non_press_keeps_focus": 2000,
         "cover:page_key_on_tall_unselectable_focus": 1500,
         "cover:list_with_repeated_widget_object": 15000,
         "cover:repeated_widget_object_visible_twice": 6000,
@@ -115,13 +183,14 @@ RULE = (
     "items: spy flow widgets (heights 0/1/2/3/5/12/25, +1..2 rows when narrower than 8 columns; unselectable, selectable, "
     "selectable with cursor protocol), real multi-line urwid.Edit and real 0-row Pile([]); walkers SimpleListWalker, "
     "SimpleFocusListWalker, dict-backed sparse-position walkers implementing list-walker API v2 (+positions) and v1 only; "
-    "box (3..20)x(1..10); ops: keys up/down/page up/page down/home/end/x, mouse press/release buttons 1/4/5 at random "
-    "cells, set_focus(pos, coming_from), set_focus_valign(top/middle/bottom/relative pct), resize, walker "
+    "box (3..20)x(1..10); ops: keys up/down/page up/page down/home/end/x, mouse press (buttons 1-5) / release (0-3) / "
+    "drag (1-3) under every event name the decoder produces (8 shift/meta/ctrl prefix combinations) at random cells, set_focus(pos, coming_from), set_focus_valign(top/middle/bottom/relative pct), resize, walker "
     "insert/delete/replace/del w[:]/clear()/+=/extend/*= 0,1,2/slice assignment/pop/remove/reverse/sort (list calls on the two "
     "bundled walkers, mapped to insert/delete on the dict walkers, mirrored in the harness's Python list), empty-then-refill "
     "sequences after moving the focus to a high index, in 25% of the histories the SAME widget object placed at several "
     "positions (recipes sharing an id; op dup = w.insert(j, w[i])), in 8% a 1-3 item list around a tall unselectable item "
-    "with mostly paging/scrolling keys and button-1 presses, ListBox focus flag toggle; a case = the whole JSON recipe; distinct = distinct recipes; "
+    "with mostly paging/scrolling keys and button-1 presses, in 7% an unfocused ListBox (rendered and clicked with focus=False) "
+    "around multi-row cursor items with set_focus/resize/button-1 presses, ListBox focus flag toggle; a case = the whole JSON recipe; distinct = distinct recipes; "
     "non-trivial = at least one render was judged; a history stops at its first failure; per shard the first 3 (quick) / 8 "
     "(thorough) failures of each base signature (clause + kind of mismatch or exception site) are shrunk and classified, "
     "further ones are only counted (failure:* counters)"
@@ -163,13 +232,30 @@ def gen_item(rng, ident, zero_mode):
     return {"t": "edit", "id": ident, "lines": lines, "pos": rng.randint(0, 3 * lines)}
 
 
+# every mouse event name the input decoder produces for press / release / drag: modifier prefixes in the order
+# "shift ", "meta ", "ctrl " (urwid/display/escape.py read_mouse_info / read_sgrmouse_info)
+MOUSE_PREFIXES = [("shift " if m & 1 else "") + ("meta " if m & 2 else "") + ("ctrl " if m & 4 else "") for m in range(8)]
+MOUSE_EVENTS = [f"{p}mouse {a}" for a in ("press", "release", "drag") for p in MOUSE_PREFIXES]
+
+
+def gen_mouse(rng, button1=False):
+    prefix = "" if rng.random() < 0.5 else rng.choice(MOUSE_PREFIXES[1:])
+    a = rng.random()
+    if button1 or a < 0.8:
+        action, button = "press", 1 if button1 else rng.choice([1, 1, 1, 1, 2, 3, 4, 5])
+    elif a < 0.9:
+        action, button = "release", rng.choice([0, 1, 2, 3])
+    else:
+        action, button = "drag", rng.choice([1, 1, 2, 3])
+    return ["mouse", f"{prefix}mouse {action}", button, rng.randint(0, 19), rng.randint(0, 9)]
+
+
 def gen_op(rng, new_item, repeat_mode):
     r = rng.random()
     if r < 0.40:
         return ["key", rng.choice(KEYS)]
     if r < 0.55:
-        ev = "mouse press" if rng.random() < 0.9 else "mouse release"
-        return ["mouse", ev, rng.choice([1, 1, 1, 4, 5]), rng.randint(0, 19), rng.randint(0, 9)]
+        return gen_mouse(rng)
     if r < 0.65:
         return ["set_focus", rng.randint(0, 11), rng.choice([None, "above", "below"])]
     if r < 0.72:
@@ -264,14 +350,43 @@ def gen_case(rng, max_ops):
         items = [new_item() for _ in range(n)]
         if scroll_mode:
             items[rng.randrange(n)] = {"t": "spy", "id": next(ids), "h": rng.choice([12, 25]), "sel": False, "nx": 0}
+        # unfocused mode: a ListBox that is displayed and clicked WITHOUT focus (the unfocused pane of a Columns),
+        # around multi-row items whose cursor row was set programmatically; set_focus / resize / button-1 presses
+        unfocused_mode = not scroll_mode and rng.random() < 0.07
+        if unfocused_mode:
+            items = []
+            for _ in range(rng.randint(2, 6)):
+                if rng.random() < 0.5:
+                    h = rng.choice([3, 5, 12])
+                    r = {"t": "cur", "id": next(ids), "h": h, "nx": 0, "cx": rng.randint(0, 6), "cy": rng.randint(0, h - 1)}
+                    if rng.random() < 0.3:
+                        lines = rng.choice([3, 4, 12])
+                        r = {"t": "edit", "id": r["id"], "lines": lines, "pos": rng.randint(0, 3 * lines)}
+                    pool.append(r)
+                    items.append(r)
+                else:
+                    items.append(new_item())
         nops = rng.randint(max(3, max_ops // 3), max_ops)
         for _ in range(nops):
+            if unfocused_mode and rng.random() < 0.8:
+                m = rng.random()
+                if m < 0.25:
+                    ops.append(["set_focus", rng.randint(0, 11), rng.choice([None, "above", "below"])])
+                elif m < 0.5:
+                    ops.append(["resize", rng.randint(3, 20), rng.randint(1, 10)])
+                elif m < 0.9:
+                    ops.append(gen_mouse(rng, button1=True))
+                else:
+                    ops.append(["lbfocus", rng.random() < 0.3])
+                if rng.random() < 0.85:
+                    ops.append(["render"])
+                continue
             if scroll_mode and rng.random() < 0.8:
                 m = rng.random()
                 if m < 0.55:
                     ops.append(["key", rng.choice(["page down", "page up", "down", "up"])])
                 elif m < 0.85:
-                    ops.append(["mouse", "mouse press", 1, rng.randint(0, 19), rng.randint(0, 9)])
+                    ops.append(gen_mouse(rng, button1=True))
                 else:
                     ops.append(["set_focus", rng.randint(0, 11), rng.choice([None, "above", "below"])])
                 if rng.random() < 0.85:
@@ -290,7 +405,7 @@ def gen_case(rng, max_ops):
     return {
         "walker": rng.choice(["slw"] * 3 + ["sflw"] * 3 + ["dictv2"] * 2 + ["dictv1"]),
         "size": [rng.randint(3, 20), rng.randint(1, 10)],
-        "lbfocus": rng.random() < 0.92,
+        "lbfocus": (rng.random() < 0.92) and not unfocused_mode,
         "focus0": rng.randint(0, 11) if rng.random() < 0.3 else None,
         "items": items,
         "ops": ops,
@@ -304,7 +419,7 @@ def opkind(op):
     if k == "key":
         return "key:" + op[1].replace(" ", "")
     if k == "mouse":
-        return ("press" if op[1] == "mouse press" else "release") + str(op[2])
+        return op[1].split()[-1] + str(op[2])  # press1 / release0 / drag1 (a needed modifier prefix is named by classify)
     if k == "set_focus":
         return f"set_focus:{op[2]}"
     if k == "valign":
@@ -499,7 +614,10 @@ class Run:
             col %= self.size[0]
             row %= self.size[1]
             target = None
-            if layout is not None and ev == "mouse press" and button == 1:
+            is_press = ev.endswith("mouse press")
+            self.count("mouse_event:" + ev)
+            before = self.focus_index()[1] if (layout is not None and not is_press) else None
+            if layout is not None and is_press and button == 1:
                 cands, owners, _shown = layout
                 ts = {owners[p + row][2] if row < kk else None for p, kk in cands}
                 if len(ts) == 1 and None not in ts:
@@ -509,8 +627,17 @@ class Run:
                 lb.mouse_event(self.size, ev, button, col, row, self.lbfocus)
             except Exception as e:  # noqa: BLE001
                 raise Failure("raise", exckind(e), f"mouse_event({self.size},{ev!r},{button},{col},{row},{self.lbfocus}) raised {type(e).__name__}: {e}\n{traceback.format_exc(limit=8)}") from None
+            if layout is not None and not is_press:
+                # judged only right after a judged render: no pending focus change can be completed by this call
+                self.count("eval:non_press_keeps_focus")
+                nidx = self.focus_index()[1]
+                if nidx != before:
+                    raise Failure("mouse-nonpress", "focus-moved", f"{ev!r} button {button} at col {col} row {row} moved the focus from list index {before} to {nidx}")
             if target is not None and target[0].selectable():
                 self.count("eval:mouse1_makes_focus")
+                self.count("eval:mouse1_makes_focus:" + ev)
+                if not self.lbfocus:
+                    self.count("eval:mouse1_on_unfocused_listbox")
                 tw, _trow, tidx = target
                 if sum(1 for it in self.model if it is tw) > 1:
                     self.count("eval:mouse1_on_repeated_widget_object")
@@ -520,7 +647,7 @@ class Run:
                     raise Failure(
                         "mouse1-focus",
                         kind,
-                        f"press(1) at col {col} row {row} on visible selectable item {tw._c07} at list index {tidx} left focus on {getattr(now, '_c07', None)} at list index {nidx}",
+                        f"{ev!r} button 1 at col {col} row {row} on visible selectable item {tw._c07} at list index {tidx} left focus on {getattr(now, '_c07', None)} at list index {nidx}",
                     )
         elif k == "set_focus":
             if n == 0:
@@ -916,6 +1043,9 @@ def classify(wit, base, st):
     sig = base
     if st.get("repeat"):
         sig += "|list=repeated-widget-object"
+    last = wit["ops"][-1]
+    if last[0] == "mouse" and not last[1].startswith("mouse "):
+        sig += "|event=with-modifier-prefix"  # the shrinker could not strip the prefix from the failing event
     if not wit["lbfocus"] or any(o[0] == "lbfocus" for o in wit["ops"]):
         if not reproduces(dict(wit, lbfocus=True, ops=[o for o in wit["ops"] if o[0] != "lbfocus"]), base):
             sig += "|listbox=unfocused"
@@ -1002,6 +1132,13 @@ def shrink(case, base, step, max_runs=220):
             if same(c):
                 best = c
                 progress = True
+        # plain mouse event names
+        for i, op in enumerate(best["ops"]):
+            if op[0] == "mouse" and not op[1].startswith("mouse "):
+                c = dict(best, ops=best["ops"][:i] + [["mouse", "mouse " + op[1].split()[-1], *op[2:]]] + best["ops"][i + 1 :])
+                if same(c):
+                    best = c
+                    progress = True
         # drop elements of the item lists carried by iadd / extend / setslice
         for i in range(len(best["ops"]) - 1, -1, -1):
             op = best["ops"][i]
